@@ -560,6 +560,15 @@ func nodeType2(interp *Interpreter, sc *scope, n *node, seen []*node) (t *itype,
 			break
 		}
 		t, err = nodeType2(interp, sc, n.child[0], seen)
+		if err == nil && t != nil && n.action == aRecv {
+			// The type of a receive operation is the type of the channel elements.
+			switch {
+			case t.cat == chanT || t.cat == chanRecvT:
+				t = t.val
+			case t.cat == valueT && t.rtype.Kind() == reflect.Chan:
+				t = valueTOf(t.rtype.Elem())
+			}
+		}
 
 	case binaryExpr:
 		// In interfaceType, we process a type constraint union definition.
